@@ -473,6 +473,8 @@ def run(ctx, replay=None):
     stats = {"comparisons": 0, "rows_compared": 0, "skipped_near_tie_rows": 0, "max_rel_dev": 0.0, "isometry_cases": 0,
              "isometry_not_full_rank": 0, "max_isometry_dev": 0.0, "scenarios": 0}
     pipe_todo = []
+    ctx.coverage["child_wall_s"] = {k: results[k][1]["wall_s"] for k in keys}
+    ctx.coverage["gate_wall_s"] = (ctx.gate or {}).get("wall_s")
     for k in keys:
         res, info = results[k]
         res = res or []
